@@ -234,6 +234,7 @@ class RefMachine:
         raw = scan(text)
         self.errors = []
         self.unexpected = []   # line numbers reported as unexpected
+        self.states = []       # (line number, state after consuming that line)
         self.tokens = []   # tokens delivered to build
         queue = []
         pos = [0]
@@ -315,6 +316,7 @@ class RefMachine:
                     if self.stop:
                         raise e
                     add_error(e)
+                self.states.append((t.line_no, state))
                 if t.eof:
                     break
             prod('end', 'GherkinDocument')
@@ -552,7 +554,7 @@ def format_token_list(tokens):
 
 
 class Result:
-    __slots__ = ('status', 'doc', 'pickles', 'errors', 'tokens', 'unexpected', 'capped', 'ids')
+    __slots__ = ('status', 'doc', 'pickles', 'errors', 'tokens', 'unexpected', 'capped', 'ids', 'states')
 
     def key(self):
         """comparable outcome: ('ok', doc, pickles) or ('errors', [(line, col, text)])"""
@@ -574,8 +576,10 @@ def reference(text, uri='u', table=None, stop=False, default='en', compile_=True
         st = m.run(text, RefLexer(default), b)
     except RefError as e:
         r.status, r.errors, r.tokens, r.unexpected = 'errors', [(e.line, e.col, e.text)], m.tokens, m.unexpected
+        r.states = m.states
         return r
     r.tokens, r.unexpected = m.tokens, m.unexpected
+    r.states = m.states
     if st is None or m.errors:
         r.status = 'errors'
         r.capped = st is None
